@@ -875,10 +875,33 @@ def op_c10(case):
         try:
             a = P().parse_string(src, mode=case.get("mode", "eval"))
             b = ast.parse(src, mode=case.get("mode", "eval"))
-            r["tree"]["nospecempty_equal"] = flatten(_drop_empty_spec_parts(a)) == flatten(_drop_empty_spec_parts(b))
+            ra, rb = flatten(_drop_empty_spec_parts(a)), flatten(_drop_empty_spec_parts(b))
+            r["tree"]["nospecempty_equal"] = ra == rb
+
+            def nospan(rows):  # the spans of text parts set aside (the end of a text part before a continuation: the named-escape cut)
+                return [r[:4] + r[8:] if r[1] == "Constant" else r for r in rows]
+
+            r["tree"]["nospecempty_textspan_only"] = nospan(ra) == nospan(rb)
+            # CPython cuts the text after a \N{...} escape; in a format spec the pieces stay separate Constant nodes
+            r["tree"]["specmerged_equal"] = flatten(_merge_spec_text(a)) == flatten(_merge_spec_text(b))
         except BaseException:  # noqa: BLE001
             r["tree"]["nospecempty_equal"] = False
     return r
+
+
+def _merge_spec_text(tree):
+    """neighbouring text parts of a format spec joined into one (empty ones were dropped before)"""
+    for n in ast.walk(tree):
+        if isinstance(n, ast.FormattedValue) and isinstance(n.format_spec, ast.JoinedStr):
+            out = []
+            for v in n.format_spec.values:
+                if out and isinstance(v, ast.Constant) and isinstance(out[-1], ast.Constant) and isinstance(v.value, str) and isinstance(out[-1].value, str):
+                    out[-1].value += v.value
+                    out[-1].end_lineno, out[-1].end_col_offset = v.end_lineno, v.end_col_offset
+                else:
+                    out.append(v)
+            n.format_spec.values = out
+    return tree
 
 
 def _drop_empty_spec_parts(tree):
